@@ -44,7 +44,18 @@ func run(c nlhist.Case) (sig string, err error, st stats) {
 	for i, op := range c.Ops {
 		if op.K == "unpin" {
 			f := w.Files[op.F%len(w.Files)]
-			if f.Uploaded && f.Pinned {
+			// "pinned" by the node's own state: chunks of a deleted earlier incarnation of the file
+			// keep their pin counts, so the file can carry pins the harness model does not know of
+			held := f.Pinned
+			if f.Uploaded && !held {
+				pc, _ := w.N.PinCounts()
+				for a := range f.All {
+					if pc[a] > 0 {
+						held = true
+					}
+				}
+			}
+			if f.Uploaded && held {
 				st.classes["unpin-of-uploaded-file"] = true
 				if evid.Known(sigUnpinUploaded) && !witnessMode {
 					evid.Get(id).Excluded(sigUnpinUploaded)
